@@ -859,6 +859,19 @@ class H3Connection:
                 else "Invalid frame type on push stream"
             )
 
+        # PUSH_PROMISE and ignored frame types have no event carrying the
+        # end of the stream, signal it like a lone FIN.
+        if stream_ended and frame_type not in (FrameType.DATA, FrameType.HEADERS):
+            self._check_content_length(stream)
+            http_events.append(
+                DataReceived(
+                    data=b"",
+                    push_id=stream.push_id,
+                    stream_id=stream.stream_id,
+                    stream_ended=True,
+                )
+            )
+
         return http_events
 
     def _init_connection(self) -> None:
